@@ -217,7 +217,10 @@ void exec_c35(const Plan& p, Ctx& ctx) {
     int opn = 0;
     int stalled_control = 0, stalled_transport = 0;  // byzantine connections left open and silent so far
     // an honest request made while silent attackers are still connected may have to wait for the daemon to give up on them
-    auto honest_bound_ms = [&] { return 60000 + 16000 * stalled_control + 3000 * stalled_transport; };
+    // ... and a peer that asked for the held chunk and reads a trickle (or nothing) may keep the sender, and with it the node, for as long as
+    // the repaired send allows one frame: 5 s without progress, or 5 s + size / 16 KiB/s in all, plus one more stall period for the call in flight
+    int hard_of_hearing_peers = 0;
+    auto honest_bound_ms = [&] { return 60000 + 16000 * stalled_control + 3000 * stalled_transport + hard_of_hearing_peers * (10000 + static_cast<int>(e.stored_plain.size() / 16384) * 1000); };
     for (auto& op : p.ops) {
         ++ctx.ops_done;
         ++opn;
@@ -359,6 +362,7 @@ void exec_c35(const Plan& p, Ctx& ctx) {
             if (hard_of_hearing && sk::alive(e.d.pid)) {
                 // the peer is still there, not reading. Everyone else must be served within the bound all the same.
                 ++stalled_transport;
+                ++hard_of_hearing_peers;
                 const std::int64_t t0 = sk::now_ns(), give_up = t0 + honest_bound_ms() * kMs;
                 bool ok = false;
                 for (int i = 0; !ok && sk::now_ns() < give_up && sk::alive(e.d.pid); ++i) ok = honest_handshake(e, honest, 200 + opn * 8 + i % 8, 10000);
@@ -501,7 +505,7 @@ Scenario make_c35() {
     s.technique = "deterministic simulation: the real `eph serve` main (real signal dispositions, accept/reader/tick threads as fibers) under byzantine transport peers (pre-handshake bytes, malformed handshakes, validly signed messages with forged manifests / shard sets / lengths / TTLs, resets mid-request) and byzantine control clients (arbitrary header bytes, lying lengths, forged manifests, early close or reset), interleaved with honest clients; liveness of the process, sanitizer reports and bounded recovery (PING, LIST, handshake within 60 s) are the oracle";
     s.real_components = {"src/main.cpp serve path (real main())", "ControlServer", "Node (handle_transport_message, handle_announce, handle_chunk, receive_chunk, fetch_chunk)", "SessionManager accept/reader threads", "protocol and manifest codecs, Shamir, ChaCha20"};
     s.stub_components = {"OS seams (fibers, simulated TCP with RST/EPIPE/SIGPIPE semantics, clock, entropy, file seam)", "attackers and honest clients are scripted"};
-    s.assumptions = {"while byzantine peers stay connected (silent, or not draining what they asked for) honest requests must be answered within 60 s + 16 s per silent control connection + 3 s per silent transport connection; the repaired sender gives up on a non-draining peer after 5 s without progress or when a frame is slower than 16 KiB/s",
+    s.assumptions = {"while byzantine peers stay connected (silent, or not draining what they asked for) honest requests must be answered within 60 s + 16 s per silent control connection + 3 s per silent transport connection; the repaired sender gives up on a non-draining peer after 5 s without progress or when a frame is slower than 16 KiB/s, so every such peer still connected adds 10 s + size/16 KiB/s to the bound (the node sends under its scheduler mutex: a bounded delay for the others, not a stop)",
                      "the relay server and the STUN client are judged under C25/C26 and C33"};
     s.rule = "plan = network knobs, token on/off, 3..10 operations (pre-handshake bytes, lying length, handshake shapes, session scripts of three actions with one of 13 manifest forgeries and a leave mode — among the actions: ask for the 900/150000/600000-byte chunk the daemon holds and then read nothing, or a trickle of 1..1024 bytes every 0.5..4 s, staying connected; an honest handshake and LIST must then be answered within the bound —, raw control requests, forged FETCH, honest requests); non-trivial = any byzantine operation; distinct = plan hash";
     s.gen = gen_c35; s.exec = exec_c35;
